@@ -433,7 +433,7 @@ func writeNodeKey(dir string, id *vlib.Identity) string {
 
 func TestC16(t *testing.T) {
 	ev := vlib.NewEvidence("C16", "exploration",
-		"candidate RPC names are derived from the current tree with go/parser (every method, exported or not, declared on VipnodePool, PaymentService, PoolStatus and Agent) x prefixes {vipnode_, pool_, '', ...} x case variants, plus every method name declared on any receiver or interface anywhere in the tree (what an embedded field would promote) under the production prefixes, plus a fixed list; the whole grid is probed (a) against the built `vipnode pool` binary over HTTP and WebSocket, (b) against the built `vipnode agent` binary over its reverse channel (the harness plays the pool), (c) in-process against the production registration and against jsonrpc2.Server with counting toy receivers (allow-lists, unexported and helper methods, value receivers); for every registered method an arity/type grid (0..n+2 parameters, absent/null/non-array params, every other JSON type at each position) must yield invalid-params without running the method (invocation counters / pool digest); non-trivial = every probe; distinct = (target, name or probe)")
+		"candidate RPC names are derived from the current tree with go/parser (every method, exported or not, declared on VipnodePool, PaymentService, PoolStatus and Agent) x prefixes {vipnode_, pool_, '', ...} x case variants, plus every method name declared on any receiver or interface anywhere in the tree (what an embedded field would promote) under the production prefixes, plus a fixed list; the whole grid is probed (a) against the built `vipnode pool` binary over HTTP and WebSocket, (b) against the built `vipnode agent` binary over its reverse channel (the harness plays the pool), (c) in-process against the production registration and against jsonrpc2.Server with counting toy receivers (allow-lists, unexported and helper methods, value receivers); for every registered method an arity/type grid (0..n+2 parameters, absent/null/non-array params, every other JSON type at each position) must yield invalid-params without running the method (invocation counters / pool digest); non-trivial = every probe; distinct = (target, name or probe); (faults) registered methods failing with coded errors, registrations that fail half-way")
 	ev.Assume("null at a parameter position is not counted as wrongly typed (encoding/json accepts it for any type)")
 	repo := os.Getenv("VERIF_REPO")
 	if repo == "" {
